@@ -174,7 +174,7 @@ Pin ==
   IF c.kind \in {"frame", "cap"} THEN
      (IF c.fed < 13 THEN "inc" ELSE IF c.want.len > MaxRecordLen THEN "err_kind"
       ELSE IF c.fed < c.total THEN "inc_n" ELSE IF res.k = "ok" THEN "full" ELSE "reject")
-  ELSE IF res.k = "ok" THEN "full" ELSE "novalue"
+  ELSE IF res.k = "ok" THEN "full" ELSE IF res.k \in {"err", "fail"} THEN "reject" ELSE "novalue"
 EmitCase ==
   LET c == Cases[i] IN EmitLine(CaseLine(i, c.fn, c.a, c.parts, res, Pin, [kind |-> c.kind, fed |-> c.fed]))
 =============================================================================
